@@ -188,124 +188,155 @@ let dbg_body ln mt ot tbl =
 let dom kind b = bump (Printf.sprintf "c16_domain_%s_%s" kind (if b then "inside" else "outside"))
 
 (* ---- driver *)
-let finish kind (v : verdict) detail =
-  let v = with_tables !tables_ok v in
-  let detail = if !tables_ok then detail else detail ^ " (codec values differ from C16's models)" in
-  bump ("kind_" ^ kind);
-  if not v.applies then bump ("outside_premises_" ^ kind);
-  if v.finding then bump "finding_foreign_namesake";
-  (* outside the premises of the theorems (a value the external codecs do not round-trip)
-     only agreement with the model is required; [finding]: the input is in the selector of
-     the listed finding and the observation is the recorded wrong behaviour *)
-  if v.finding && v.agree then Some (Printf.sprintf "agree=1 spec=0 kf=C10-foreign-namesake :: %s" detail)
-  else verdict ~agree:v.agree ~spec:(v.spec || not v.applies) ~kf:"-" ~detail
-
 let bump_res kind = function
   | L (A "ok" :: l) -> bump (Printf.sprintf "%s_ok_%d" kind (min 5 (List.length l)))
   | L [A "http"; c] -> bump (Printf.sprintf "%s_http_%s" kind (atom c))
   | _ -> bump (kind ^ "_other_error")
 
+(* one judgement, settled (outside the premises of the theorems - a value the external
+   codecs do not round-trip - only agreement with the model is required) *)
+let judged kind (v : verdict) detail =
+  bump ("kind_" ^ kind);
+  if not v.applies then bump ("outside_premises_" ^ kind);
+  if v.finding then bump "finding_foreign_namesake";
+  (verdict_settle v, detail)
+
+(* eval: the extracted verdict of one input (possibly a wrapped one or a history) on its
+   observation, with a word for the report *)
+let rec eval ln (inp : t) (obs : t list) : verdict * string =
+  match inp, obs with
+  | L (A "crash" :: _), _ -> bump "harness_call_panicked"; (verdict_fail, "PANIC in a call the harness makes into the repository")
+  | L [A "via"; m; ep; inner], _ ->
+    bump ("delivery_mode_" ^ atom m); bump ("endpoint_spelling_" ^ atom ep);
+    let (v, d) = eval ln inner obs in (v, d ^ " via delivery mode " ^ atom m)
+  | L (A "session" :: _ :: par :: m :: ep :: steps), _ ->
+    bump (Printf.sprintf "session_len_%d_overlapped_%s" (List.length steps) (atom par));
+    bump ("delivery_mode_" ^ atom m); bump ("endpoint_spelling_" ^ atom ep);
+    let rec go steps obs acc =
+      match steps, obs with
+      | [], [L [A "final"; A "ok"]] -> acc
+      | [], [L [A "final"; A what]] -> bump ("session_final_" ^ what); (verdict_fail, "history: " ^ what ^ " (a result kept from an earlier step changed / the overlapping calls answered differently)")
+      | st :: steps', L o :: obs' ->
+        let (v, d) = eval ln st o in
+        let (av, ad) = acc in
+        go steps' obs' (verdict_and av v, if av.agree && av.spec && not (v.agree && v.spec) then "history step: " ^ d else ad)
+      | _ -> raise (Parse_error "session shape")
+    in
+    go steps obs (verdict_ok, "history")
+  | L (A kind :: fl :: rest), _ ->
+    let fl = flavor_of fl in
+    (match kind, rest, obs with
+     | _, _, [L (A "panic" :: _)] -> bump "panic"; (verdict_fail, "PANIC in the implementation")
+     | _, _, (L (A "argmod" :: what :: _) :: _) -> bump "argument_modified"; (verdict_fail, "modified its argument: " ^ string_of_chars (str what))
+     | _, _, (L (A "unreadable" :: _) :: _) -> (verdict_fail, "server body is not well-formed namespace-correct XML")
+     | "query", [principal; L objs; tab], [tree; tbl; res] ->
+       let cd = codecs_of tab and os = List.map obj_of objs in
+       if os <> [] then note_nontrivial (show inp);
+       bump_res "query" res;
+       dom "query" (List.for_all (obj_dom cd.pay_enc cd.pay_dec fl) os);
+       judged kind (check_query cd fl (str principal) os (tree_of tree) (table_of tbl) (cres_of (List.map view_of) res)) "query"
+     | "multiget", [principal; L hrefs; L outs; tab], [tree; tbl; res; L calls] ->
+       let cd = codecs_of tab in
+       let assoc = List.map (function L [h; o] -> (str h, outcome_of o) | _ -> raise (Parse_error "href outcome")) outs in
+       let backend h = match List.assoc_opt h assoc with Some o -> o | None -> Failed (Some (z_of_int 404), chars_of_string "404 Not Found: not in the double", None) in
+       if List.length hrefs >= 2 then note_nontrivial (show inp);
+       bump_res "multiget" res;
+       dom "multiget" (List.for_all (fun h -> outcome_dom cd.pay_enc cd.pay_dec fl h (backend h)) (List.map str hrefs));
+       bump (Printf.sprintf "multiget_hrefs_%d" (min 9 (List.length hrefs)));
+       let v = check_multiget cd fl (str principal) backend (List.map str hrefs) (tree_of tree) (table_of tbl)
+                      (cres_of (List.map view_of) res) (List.map str calls) in
+       if not (v.agree && v.spec) then begin
+         dbg_body ln (server_multiget cd fl (str principal) (report_req fl) backend (List.map str hrefs)) (tree_of tree) (table_of tbl);
+         if debug then Printf.printf "DEBUG %d client model %s obs %s\n" ln (show_result (RObjects (e2e_multiget cd fl (str principal) backend (List.map str hrefs)))) (show_result (RObjects (cres_of (List.map view_of) res)))
+       end;
+       judged kind v "multiget"
+     | "find", [principal; home; L colls; tab], [tree; tbl; res] ->
+       let cd = codecs_of tab and cs = List.map coll_of colls in
+       if cs <> [] then note_nontrivial (show inp);
+       bump_res "find" res;
+       dom "find" (List.for_all coll_dom cs && Model_c10.href_in_domain (str home));
+       judged kind (check_find cd fl (str principal) (str home) cs (tree_of tree) (table_of tbl) (cres_of (List.map coll_view_of) res)) "find"
+     | "propfind", [principal; L req; coll; L objs; tab], [tree; tbl] ->
+       let cd = codecs_of tab in
+       if req <> [] then note_nontrivial (show inp);
+       bump (Printf.sprintf "propfind_req_%d" (min 9 (List.length req)));
+       let v = check_propfind cd fl (str principal) (List.map xname_of req) (coll_of coll) (List.map obj_of objs)
+                      (tree_of tree) (table_of tbl) in
+       if not (v.agree && v.spec) then dbg_body ln (server_propfind_collection cd fl (str principal) (List.map xname_of req) (coll_of coll) (List.map obj_of objs)) (tree_of tree) (table_of tbl);
+       judged kind v "propfind"
+     | "propfind", _, [L (A "failed" :: _)] -> (verdict_fail, "PROPFIND failed")
+     | "get", [reqpath; out; tab; htab], [res] ->
+       let cd = codecs_of tab and hd = codecs_of htab in
+       note_nontrivial (show inp);
+       bump_res "get" (match res with L [A "ok"; _] -> L [A "ok"; A "x"] | r -> r);
+       let r = cres_of (function [v] -> view_of v | _ -> raise (Parse_error "get result")) res in
+       (match outcome_of out with Found o -> dom "get" (obj_dom cd.pay_enc cd.pay_dec fl o) | _ -> ());
+       let v = check_get cd hd fl (str reqpath) (outcome_of out) r in
+       if debug && not (v.agree && v.spec) then Printf.printf "DEBUG %d get model %s obs %s\n" ln (show_cres show_view (e2e_get cd hd fl (str reqpath) (outcome_of out))) (show_cres show_view r);
+       judged kind v "get"
+     | "put", [reqpath; data; ret; tab; htab], [res; recv] ->
+       let cd = codecs_of tab and hd = codecs_of htab in
+       note_nontrivial (show inp);
+       bump_res "put" (match res with L [A "ok"; _] -> L [A "ok"; A "x"] | r -> r);
+       (match outcome_of ret with
+        | Found o -> dom "put" (pay_rt cd.pay_enc cd.pay_dec fl (str data) && loc_dom o && meta_dom o)
+        | _ -> ());
+       judged kind (check_put cd hd fl (str reqpath) (str data) (outcome_of ret)
+                      (cres_of (function [v] -> view_of v | _ -> raise (Parse_error "put result")) res)
+                      (match recv with A "n" -> None | L [p; d] -> Some (str p, str d) | _ -> raise (Parse_error "received"))) "put"
+     | "putseq", _, obs when List.exists (function L (A "panic" :: _) -> true | _ -> false) obs ->
+       bump "panic"; (verdict_fail, "PANIC in the implementation (put history)")
+     | "putseq", _, obs when List.exists (function L (A "argmod" :: _) -> true | _ -> false) obs ->
+       bump "argument_modified"; (verdict_fail, "modified its argument (put history)")
+     | "putseq", [reqpath; pre; L steps; tab; htab], obs ->
+       let cd = codecs_of tab and hd = codecs_of htab in
+       note_nontrivial (show inp);
+       bump (Printf.sprintf "putseq_len_%d_pre_%s" (List.length steps) (atom pre));
+       let steps = List.map (function L [d; ret] -> (str d, outcome_of ret) | _ -> raise (Parse_error "put step")) steps in
+       let obs = List.map (function
+           | L [res; recv] ->
+             (cres_of (function [v] -> view_of v | _ -> raise (Parse_error "put result")) res,
+              (match recv with A "n" -> None | L [p; d] -> Some (str p, str d) | _ -> raise (Parse_error "received")))
+           | _ -> raise (Parse_error "put step observation")) obs in
+       List.iter (fun (_, ret) -> match ret with
+           | Found o -> bump (if string_of_chars o.o_path = string_of_chars (str reqpath) then "putseq_ret_same_path"
+                              else if o.o_path = [] then "putseq_ret_no_path" else "putseq_ret_other_path")
+           | _ -> bump "putseq_ret_failure") steps;
+       judged kind (check_putseq cd hd fl (str reqpath) steps obs) "putseq"
+     | "vdoc", [call; reqpath; d1; d2; tab], [t1; r1; t2; r2] ->
+       let cd = codecs_of tab and call = call_of call in
+       note_nontrivial (show inp);
+       bump_res "vdoc" r2;
+       let v = check_vdoc cd fl call (str reqpath) (wdoc_of d1) (wdoc_of d2) (tree_of t1) (call_result_of call r1)
+                      (tree_of t2) (call_result_of call r2) in
+       if debug && not (v.agree && v.spec) then begin
+         List.iter (fun (d, t, r) ->
+           if not (xtree_eqb (rfc_write (wdoc_of d)) (tree_of t)) then Printf.printf "DEBUG %d writer\n  coq %s\n  go  %s\n" ln (show_tree (rfc_write (wdoc_of d))) (show_tree (tree_of t));
+           Printf.printf "DEBUG %d vdoc model %s\n   obs %s\n" ln (show_result (run_call cd fl call (str reqpath) (tree_of t))) (show_result (call_result_of call r)))
+           [(d1, t1, r1); (d2, t2, r2)]
+       end;
+       judged kind v "vdoc"
+     | "doc", [call; reqpath; _; tab], [t; r] ->
+       let cd = codecs_of tab and call = call_of call in
+       note_nontrivial (show inp);
+       bump_res "doc" r;
+       let v = check_doc cd fl call (str reqpath) (tree_of t) (call_result_of call r) in
+       if debug && not v.agree then Printf.printf "DEBUG %d doc %s\n  model %s\n  obs   %s\n" ln (show_tree (tree_of t)) (show_result (run_call cd fl call (str reqpath) (tree_of t))) (show_result (call_result_of call r));
+       judged kind v "doc"
+     | _, _, (L (A "unwritable" :: _) :: _) -> bump "unwritable_doc"; (verdict_ok, "unwritable")
+     | _ -> raise (Parse_error ("case shape: " ^ kind)))
+  | _ -> raise (Parse_error "input")
+
 let () =
   run_file Sys.argv.(1) (fun ln sx ->
     tables_ok := true;
     match sx with
-    | [L (A kind :: fl :: rest); L obs] ->
-      let fl = flavor_of fl in
-      (match kind, rest, obs with
-       | _, _, [L (A "panic" :: _)] -> bump "panic"; verdict ~agree:false ~spec:false ~kf:"-" ~detail:"PANIC in the implementation"
-       | _, _, (L (A "unreadable" :: _) :: _) -> verdict ~agree:false ~spec:false ~kf:"-" ~detail:"server body is not well-formed namespace-correct XML"
-       | "query", [principal; L objs; tab], [tree; tbl; res] ->
-         let cd = codecs_of tab and os = List.map obj_of objs in
-         if os <> [] then note_nontrivial (show (List.hd sx));
-         bump_res "query" res;
-         dom "query" (List.for_all (obj_dom cd.pay_enc cd.pay_dec fl) os);
-         finish kind (check_query cd fl (str principal) os (tree_of tree) (table_of tbl) (cres_of (List.map view_of) res)) "query"
-       | "multiget", [principal; L hrefs; L outs; tab], [tree; tbl; res; L calls] ->
-         let cd = codecs_of tab in
-         let assoc = List.map (function L [h; o] -> (str h, outcome_of o) | _ -> raise (Parse_error "href outcome")) outs in
-         let backend h = match List.assoc_opt h assoc with Some o -> o | None -> Failed (Some (z_of_int 404), chars_of_string "404 Not Found: not in the double", None) in
-         if List.length hrefs >= 2 then note_nontrivial (show (List.hd sx));
-         bump_res "multiget" res;
-         dom "multiget" (List.for_all (fun h -> outcome_dom cd.pay_enc cd.pay_dec fl h (backend h)) (List.map str hrefs));
-         bump (Printf.sprintf "multiget_hrefs_%d" (min 9 (List.length hrefs)));
-         let v = check_multiget cd fl (str principal) backend (List.map str hrefs) (tree_of tree) (table_of tbl)
-                        (cres_of (List.map view_of) res) (List.map str calls) in
-         if not (v.agree && v.spec) then begin
-           dbg_body ln (server_multiget cd fl (str principal) (report_req fl) backend (List.map str hrefs)) (tree_of tree) (table_of tbl);
-           if debug then Printf.printf "DEBUG %d client model %s obs %s\n" ln (show_result (RObjects (e2e_multiget cd fl (str principal) backend (List.map str hrefs)))) (show_result (RObjects (cres_of (List.map view_of) res)))
-         end;
-         finish kind v "multiget"
-       | "find", [principal; home; L colls; tab], [tree; tbl; res] ->
-         let cd = codecs_of tab and cs = List.map coll_of colls in
-         if cs <> [] then note_nontrivial (show (List.hd sx));
-         bump_res "find" res;
-         dom "find" (List.for_all coll_dom cs && Model_c10.href_in_domain (str home));
-         finish kind (check_find cd fl (str principal) (str home) cs (tree_of tree) (table_of tbl) (cres_of (List.map coll_view_of) res)) "find"
-       | "propfind", [principal; L req; coll; L objs; tab], [tree; tbl] ->
-         let cd = codecs_of tab in
-         if req <> [] then note_nontrivial (show (List.hd sx));
-         bump (Printf.sprintf "propfind_req_%d" (min 9 (List.length req)));
-         let v = check_propfind cd fl (str principal) (List.map xname_of req) (coll_of coll) (List.map obj_of objs)
-                        (tree_of tree) (table_of tbl) in
-         if not (v.agree && v.spec) then dbg_body ln (server_propfind_collection cd fl (str principal) (List.map xname_of req) (coll_of coll) (List.map obj_of objs)) (tree_of tree) (table_of tbl);
-         finish kind v "propfind"
-       | "propfind", _, [L (A "failed" :: _)] -> verdict ~agree:false ~spec:false ~kf:"-" ~detail:"PROPFIND failed"
-       | "get", [reqpath; out; tab; htab], [res] ->
-         let cd = codecs_of tab and hd = codecs_of htab in
-         note_nontrivial (show (List.hd sx));
-         bump_res "get" (match res with L [A "ok"; _] -> L [A "ok"; A "x"] | r -> r);
-         let r = cres_of (function [v] -> view_of v | _ -> raise (Parse_error "get result")) res in
-         (match outcome_of out with Found o -> dom "get" (obj_dom cd.pay_enc cd.pay_dec fl o) | _ -> ());
-         let v = check_get cd hd fl (str reqpath) (outcome_of out) r in
-         if debug && not (v.agree && v.spec) then Printf.printf "DEBUG %d get model %s obs %s\n" ln (show_cres show_view (e2e_get cd hd fl (str reqpath) (outcome_of out))) (show_cres show_view r);
-         finish kind v "get"
-       | "put", [reqpath; data; ret; tab; htab], [res; recv] ->
-         let cd = codecs_of tab and hd = codecs_of htab in
-         note_nontrivial (show (List.hd sx));
-         bump_res "put" (match res with L [A "ok"; _] -> L [A "ok"; A "x"] | r -> r);
-         (match outcome_of ret with
-          | Found o -> dom "put" (pay_rt cd.pay_enc cd.pay_dec fl (str data) && loc_dom o && meta_dom o)
-          | _ -> ());
-         finish kind (check_put cd hd fl (str reqpath) (str data) (outcome_of ret)
-                        (cres_of (function [v] -> view_of v | _ -> raise (Parse_error "put result")) res)
-                        (match recv with A "n" -> None | L [p; d] -> Some (str p, str d) | _ -> raise (Parse_error "received"))) "put"
-       | "putseq", _, obs when List.exists (function L (A "panic" :: _) -> true | _ -> false) obs ->
-         bump "panic"; verdict ~agree:false ~spec:false ~kf:"-" ~detail:"PANIC in the implementation (put history)"
-       | "putseq", [reqpath; pre; L steps; tab; htab], obs ->
-         let cd = codecs_of tab and hd = codecs_of htab in
-         note_nontrivial (show (List.hd sx));
-         bump (Printf.sprintf "putseq_len_%d_pre_%s" (List.length steps) (atom pre));
-         let steps = List.map (function L [d; ret] -> (str d, outcome_of ret) | _ -> raise (Parse_error "put step")) steps in
-         let obs = List.map (function
-             | L [res; recv] ->
-               (cres_of (function [v] -> view_of v | _ -> raise (Parse_error "put result")) res,
-                (match recv with A "n" -> None | L [p; d] -> Some (str p, str d) | _ -> raise (Parse_error "received")))
-             | _ -> raise (Parse_error "put step observation")) obs in
-         List.iter (fun (_, ret) -> match ret with
-             | Found o -> bump (if string_of_chars o.o_path = string_of_chars (str reqpath) then "putseq_ret_same_path"
-                                else if o.o_path = [] then "putseq_ret_no_path" else "putseq_ret_other_path")
-             | _ -> bump "putseq_ret_failure") steps;
-         finish kind (check_putseq cd hd fl (str reqpath) steps obs) "putseq"
-       | "vdoc", [call; reqpath; d1; d2; tab], [t1; r1; t2; r2] ->
-         let cd = codecs_of tab and call = call_of call in
-         note_nontrivial (show (List.hd sx));
-         bump_res "vdoc" r2;
-         let v = check_vdoc cd fl call (str reqpath) (wdoc_of d1) (wdoc_of d2) (tree_of t1) (call_result_of call r1)
-                        (tree_of t2) (call_result_of call r2) in
-         if debug && not (v.agree && v.spec) then begin
-           List.iter (fun (d, t, r) ->
-             if not (xtree_eqb (rfc_write (wdoc_of d)) (tree_of t)) then Printf.printf "DEBUG %d writer\n  coq %s\n  go  %s\n" ln (show_tree (rfc_write (wdoc_of d))) (show_tree (tree_of t));
-             Printf.printf "DEBUG %d vdoc model %s\n   obs %s\n" ln (show_result (run_call cd fl call (str reqpath) (tree_of t))) (show_result (call_result_of call r)))
-             [(d1, t1, r1); (d2, t2, r2)]
-         end;
-         finish kind v "vdoc"
-       | "doc", [call; reqpath; _; tab], [t; r] ->
-         let cd = codecs_of tab and call = call_of call in
-         note_nontrivial (show (List.hd sx));
-         bump_res "doc" r;
-         let v = check_doc cd fl call (str reqpath) (tree_of t) (call_result_of call r) in
-         if debug && not v.agree then Printf.printf "DEBUG %d doc %s\n  model %s\n  obs   %s\n" ln (show_tree (tree_of t)) (show_result (run_call cd fl call (str reqpath) (tree_of t))) (show_result (call_result_of call r));
-         finish kind v "doc"
-       | _, _, (L (A "unwritable" :: _) :: _) -> bump "unwritable_doc"; None
-       | _ -> raise (Parse_error ("case shape: " ^ kind)))
+    | [inp; L obs] ->
+      let (v, detail) = eval ln inp obs in
+      let v = with_tables !tables_ok v in
+      let detail = if !tables_ok then detail else detail ^ " (codec values differ from C16's models)" in
+      (* [finding]: the input is in the selector of the listed finding and the observation is
+         the recorded wrong behaviour *)
+      if v.finding && v.agree then Some (Printf.sprintf "agree=1 spec=0 kf=C10-foreign-namesake :: %s" detail)
+      else verdict ~agree:v.agree ~spec:v.spec ~kf:"-" ~detail
     | _ -> raise (Parse_error "line"))
